@@ -41,7 +41,7 @@ func init() {
 			"buildRequest numbers records/inner messages by their index and sets LastOffsetDelta = len-1 (C04.deltas); the partition is chosen once (retries == 0) and the choice is range-checked before indexing (C04.partition-once); the byte/count accounting of add and dropPartition is symmetric (C04.accounting). " +
 			"What compress() and its siblings hand out is never storage that the same function returns to a sync.Pool — the encoders cache a compressed payload between the sizing and the writing pass, and a pooled buffer would be overwritten by the next partition (C04.owned-output). Shared with C09 because C04 names nil/empty keys and values: the null marker of a byte field is written only under a nil test (C09.null) and the sizing and writing passes of every primitive agree (C09.prep-real). " +
 			"NOT covered: codec output, per-version framing bytes (C09 decides encoder/decoder agreement), broker behaviour.",
-		Rules: []func(*Ctx){c04Offset, c04Aligned, c04Record, c04Deltas, c04PartitionOnce, c04Accounting, c04OwnedOutput, c09Null, c09PrepReal, c04FormatGate, c04FreshElement, c02RetryStateKept, c01ErrLost, c04HeadersGate, c04BaseFixed, c04InnerMessagePlain, c04TimestampsFloored, c05Rollover, c02SlabNotReused, c04DeltaOfFloored},
+		Rules: []func(*Ctx){c04Offset, c04Aligned, c04Record, c04Deltas, c04PartitionOnce, c04Accounting, c04OwnedOutput, c09Null, c09PrepReal, c04FormatGate, c04FreshElement, c02RetryStateKept, c01ErrLost, c04HeadersGate, c04BaseFixed, c04InnerMessagePlain, c04TimestampsFloored, c05Rollover, c02SlabNotReused, c04DeltaOfFloored, c09VarintReserve},
 	})
 }
 
